@@ -38,7 +38,7 @@ type witness struct {
 }
 
 func run(r *ev.Run, cfg props.Cfg) {
-	runScenarios(r, cfg, cfg.Pick(5000, 60000), "main", cfg.Workers)
+	runScenarios(r, cfg, cfg.Pick(5000, 300000), "main", cfg.Workers)
 	sink.RaceSlice(r, cfg, "C03", cfg.Workers, nil)
 	r.Assume("the strict ledger is the harness' reference for what a real adjudicator accepts; a call of an honest client that it refuses is reported")
 	r.Assume("runs in which a call returned a timeout or a Settle call failed are inconclusive for the payout oracle (counted), but ledger refusals of honest calls are still reported")
@@ -48,7 +48,7 @@ func childMain(cfg props.Cfg) int {
 	em := childrun.NewEmitter()
 	var w, W int
 	fmt.Sscanf(strings.TrimPrefix(cfg.Child, "race:"), "%d/%d", &w, &W)
-	n := cfg.Pick(500, 6000) / W
+	n := cfg.Pick(500, 20000) / W
 	if n < 1 {
 		n = 1
 	}
